@@ -74,7 +74,7 @@ def run(case, prop):
                             c.get_visited_times(), c.get_u_value(), c.get_b_value()), 0)
             bound_lo = bound_hi = None
             if name == "T_HOO":
-                bound_lo, bound_hi = R.ceil_range(R.thoo_depth_bound_arg(p))
+                bound_lo, bound_hi = R.thoo_depth_bound_range(p)
             T = case["T"]
             for t in range(1, T + 1):
                 nsp = len(s.split_log)
